@@ -257,9 +257,7 @@ func BenchmarkInterpret(b *testing.B) {
 
 func TestCGenIssues(t *testing.T) {
 	want := map[string]string{
-		"t12_cgen_invalid_c":               "pub-func-returning-bool",
-		"t13_cgen_sat_small_int":           "binary-sat-on-small-integer",
-		"t14_cgen_checked_arg_with_result": "pub-noncoroutine-result-with-checked-arg",
+		"t12_cgen_invalid_c": "pub-func-returning-bool",
 	}
 	for name, tc := range loadTestdata(t) {
 		p, _, _ := Compile(&tc.Case)
